@@ -6,11 +6,12 @@ pat="${1:-}"
 list=$(ls -d /verif/seeded/*${pat}*/ 2>/dev/null)
 [ -n "${MUTANTS:-}" ] && list="$list $(ls /verif/mutants/*${pat}*.diff 2>/dev/null)"
 for s in $list; do
-  if [ -d "$s" ]; then name=$(basename $s); patch=$s/patch.diff; id=$(jq -r .property $s/meta.json)
+  if [ -d "$s" ]; then name=$(basename $s); patch=$s/patch.diff; id=$(jq -r .property $s/meta.json | grep -o '^C[0-9][0-9]'); [ -z "$id" ] && id="C13 C15 C16 C17 C18 C19"
   else name=$(basename $s .diff); patch=$s; id=$(echo $name | grep -o 'C[0-9][0-9]' | head -1); fi
   res=$(REPLAY=1 /verif/tools/try_patch.sh $patch $id 2>&1 | grep -v "repo tests" | tr "\n" " " | cut -c1-400)
   want=1; case $name in neg-*) want=0;; esac
   ok=MISS; echo "$res" | grep -q "exit=$want" && ok=ok
+  [ $want = 0 ] && { echo "$res" | grep -q "exit=[12]" && ok=FALSE-ALARM; }
   [ $want = 1 ] && [ $ok = ok ] && { echo "$res" | grep -q "REPRODUCED EXACTLY" || ok="ok(replay-differs)"; }
   echo "$ok  $name: $res"
 done
